@@ -309,6 +309,10 @@ def decode_TEXT(value):
             # bytes (one byte per code point of the original value).
             atom = atom.decode('ISO-8859-1')
         decodedvalue += atom
+    # Some codecs (utf-7, unicode_escape) decode to lone surrogates: text
+    # that no header, log line or error page can be encoded from again.
+    # That is an undecodable word (UnicodeEncodeError is a ValueError).
+    decodedvalue.encode('utf-8')
     return decodedvalue
 
 
